@@ -139,6 +139,23 @@ Proof.
   intro H. destruct w; cbn [wrapv g_simplify_type]; rewrite <- (simplify_number_is_source n H); reflexivity.
 Qed.
 
+(* ---- types.py: the NaN test of simplify_number (`if fraction != fraction: raise OverflowError`).  A NaN is not
+   representable in the model (an idealised float is an exact rational), so on the model's floats the test is dead:
+   simplify_number_is_source holds with or without it, and [nan_guard_dead] says why.  That the SOURCE contains the
+   test, first thing after math.modf and raising OverflowError, is pinned by [simplify_number_nan_guard_is_source]:
+   its proof is by conversion on purpose (x != x on an abstract rational does not compute), so it checks the shape of
+   the regenerated definition; removing or moving the test breaks it.  The real NaN path (C16: never a NaN as a value)
+   is exercised on the implementation by the C16 check. *)
+Lemma nan_guard_dead x : let '(f, _) := p_modf x in p_ne f f = false.
+Proof. unfold p_modf. apply p_ne_self. Qed.
+
+Lemma simplify_number_nan_guard_is_source q :
+  g_simplify_number (NFlt q) =
+  let '(f, w) := p_modf (NFlt q) in
+  if p_ne f f then Raise OverflowError
+  else if p_eq f (NInt 0) then Ok (p_int w) else Ok (NFlt q).
+Proof. reflexivity. Qed.
+
 (* ---- functions.py: coerce_to for a Number parameter (and resolve_combinatoric), on a number or a lazy value *)
 Lemma coerce_to_is_source c : bind (coerce c) (fun n => Ok (CNum n)) = g_coerce_to c TNumber.
 Proof. destruct c; reflexivity. Qed.
@@ -154,5 +171,7 @@ Print Assumptions ka_log2_is_source.
 Print Assumptions plan1_is_source.
 Print Assumptions plan2_is_source.
 Print Assumptions simplify_type_is_source.
+Print Assumptions nan_guard_dead.
+Print Assumptions simplify_number_nan_guard_is_source.
 Print Assumptions coerce_to_is_source.
 Print Assumptions coerce_to_other_is_source.
